@@ -99,7 +99,9 @@ def check(model, rep, tier):
   loops = [n for n in er_fn.node.body if isinstance(n, ast.For)]
   jumps = [n for l in loops for n in ast.walk(l)
            if isinstance(n, (ast.Break, ast.Return, ast.Raise))]
-  rep.check(len(loops) == 2 and not jumps, 'IFACE-ERASE',
+  n_comp = sum(1 for a_ in er_fn.node.body if isinstance(a_, ast.Assign) and isinstance(
+      a_.value, ast.ListComp) and not a_.value.generators[0].ifs)
+  rep.check(len(loops) + n_comp == 2 and not jumps, 'IFACE-ERASE',
             '%s:complete-loops' % er_fn.site,
             'both default lists must be walked to the end (no break/return in '
             'the loops): a required keyword-only parameter has a None entry that '
@@ -150,6 +152,35 @@ def check(model, rep, tier):
       else:
         # exactly the slots that hold a default (None marks a required keyword-only)
         kw_ok = formula.equivalent(f, ~formula.atom('NONE'))[0]
+  # the same, written as a rebuilt list: L[:] = [E for d in L] (or L = [...]),
+  # every element the fresh None expression, or -- keyword-only -- None kept
+  # where the slot is None
+  NONE_E = "parser.parse_expression('None')"
+  comp_forms = 0
+  for a_ in er_fn.node.body:
+    if not (isinstance(a_, ast.Assign) and len(a_.targets) == 1 and isinstance(
+        a_.value, ast.ListComp) and len(a_.value.generators) == 1 and
+            not a_.value.generators[0].ifs):
+      continue
+    t_ = a_.targets[0]
+    if isinstance(t_, ast.Subscript) and isinstance(t_.slice, ast.Slice) and \
+        t_.slice.lower is None and t_.slice.upper is None and t_.slice.step is None:
+      t_ = t_.value
+    lst_ = tpl.xnorm(er_fn, t_, a_)
+    gen_ = a_.value.generators[0]
+    if tpl.xnorm(er_fn, gen_.iter, a_) != lst_ or not isinstance(gen_.target, ast.Name):
+      continue
+    comp_forms += 1
+    d_ = gen_.target.id
+    e_ = a_.value.elt
+    if lst_ == prm + '.args.defaults':
+      pos_ok = core.norm(e_) == NONE_E
+    elif lst_ == prm + '.args.kw_defaults' and isinstance(e_, ast.IfExp):
+      tt = core.norm(e_.test)
+      if tt == '%s is None' % d_:
+        kw_ok = core.norm(e_.body) in ('None', d_) and core.norm(e_.orelse) == NONE_E
+      elif tt == '%s is not None' % d_:
+        kw_ok = core.norm(e_.orelse) in ('None', d_) and core.norm(e_.body) == NONE_E
   rep.check(pos_ok, 'IFACE-ERASE', '%s:positional-defaults' % er_fn.site,
             'every positional default must be overwritten', line=er_fn.node.lineno)
   rep.check(kw_ok, 'IFACE-ERASE', '%s:keyword-only-defaults' % er_fn.site,
